@@ -11,6 +11,7 @@
 #include <rapidcheck.h>
 
 #include "exec.hpp"
+#include "values.hpp"
 #include "vt.hpp"
 
 #include <atomic>
